@@ -41,6 +41,18 @@ var names = sync.OnceValue(func() []string {
 
 const nPlain = 24
 
+// family returns a base name of length l and its l variants, each differing from the base in exactly one byte.
+func family(l int) []string {
+	base := []byte("channel_measurement_scale_offset")[:l]
+	out := []string{string(base)}
+	for j := 0; j < l; j++ {
+		v := append([]byte{}, base...)
+		v[j] = "0123456789"[j%10]
+		out = append(out, string(v))
+	}
+	return out
+}
+
 type Op struct {
 	K    string        `json:"k"` // w d reopen fit
 	D    int           `json:"delta,omitempty"` // fit: string value sized so that the header message area becomes 255+D bytes
@@ -54,6 +66,7 @@ type Case struct {
 	Chunked bool   `json:"chunked"` // dataset layout
 	Others  int    `json:"others"`  // objects created after the target (target is then not the last allocation)
 	Collide bool   `json:"collide"` // name pool includes the colliding pairs
+	Family  int    `json:"family,omitempty"` // L > 0: the first L+1 pool names are a base name of length L and its L one-byte variants
 	Ops     []Op   `json:"ops"`
 }
 
@@ -77,6 +90,11 @@ func gen(t *rapid.T) Case {
 		Chunked: rapid.Bool().Draw(t, "chunked"),
 		Others:  rapid.SampledFrom([]int{0, 1, 2}).Draw(t, "others"),
 		Collide: rapid.IntRange(0, 19).Draw(t, "collide") == 0,
+	}
+	if rapid.IntRange(0, 3).Draw(t, "withFamily") == 0 {
+		// names that differ from one another in exactly one byte, at every position of a name of length L: a name index that
+		// ignores or confuses one byte of the name merges two of them
+		c.Family = rapid.IntRange(1, nPlain-1).Draw(t, "family")
 	}
 	pool := nPlain
 	if c.Collide {
@@ -175,11 +193,17 @@ func classify(c Case) (bool, []string) {
 	if c.Collide {
 		labels = append(labels, "colliding_pool")
 	}
+	if c.Family > 0 {
+		labels = append(labels, "one_byte_variant_names")
+	}
 	return maxLive > 8 || sizeChanging > 0 || rewrites > 0 || reopens > 0, labels
 }
 
 func run(c Case) vt.Verdict {
 	pool := names()
+	if c.Family > 0 {
+		pool = append(family(c.Family), pool[c.Family+1:]...)
+	}
 	file := filepath.Join(vt.GetEnv().Scratch, fmt.Sprintf("c02-%d.h5", os.Getpid()))
 	defer os.Remove(file)
 	ex, err := hist.NewExec(file, c.SB)
